@@ -18,7 +18,11 @@ type binCase struct {
 	Hosts []string `json:"hosts"`
 }
 
-var binPatterns = []string{`example\.com`, `^www\.`, `internal`, `\.test$`, `^127\.0\.0\.1$`, `localhost`, `foo|bar`, `[0-9]+\.corp`, `^intranet\.corp$`, `.*`, `o`}
+var binPatterns = []string{`example\.com`, `^www\.`, `internal`, `\.test$`, `^127\.0\.0\.1$`, `localhost`, `foo|bar`, `[0-9]+\.corp`, `^intranet\.corp$`, `.*`, `o`,
+	// regression targets (every rule on its own): an unscoped flag group must not reach the rules after
+	// it — `(?i)nomatch` followed by `INTERNAL\.` denies nothing —, and an upper-case letter in one rule
+	// must not capture the case-folded letter of another — `I.` next to `(?i:i.)` still denies `internal.corp`
+	`(?i)nomatch`, `INTERNAL\.`, `I.`, `(?i:i.)`}
 var binHosts = []string{"www.example.com", "example.com", "internal.corp", "127.0.0.1", "localhost", "a.test", "foo.test", "12.corp", "other.org", "intranet.corp", "bar.example.com"}
 
 func genBin(r *core.Rand) binCase {
